@@ -222,7 +222,7 @@ type world struct {
 	deep      bool
 	minLevel  int
 	testSrv   *authkit.Server
-	raceArm   atomic.Int32     // k of the race move whose attack query is in flight; 0 = not armed
+	raceArm   atomic.Int32      // k of the race move whose attack query is in flight; 0 = not armed
 	raceAsk   func(name string) // sends the concurrent client's query through the pipeline
 	raceDone  chan struct{}     // closed when that query has been answered
 	raceFired int               // how often the hook started one
